@@ -1,4 +1,5 @@
 import EvyV.Props.EvalCore
+import EvyV.Props.Frame
 /-
 C14 — running programs stay interruptible and stop cleanly.
 
@@ -94,5 +95,13 @@ theorem only_summary_follows (st : St F) :
 example : ∃ st : St Int, st.stopped = true ∧ tick st = none := ⟨{ stopped := true }, rfl, rfl⟩
 example : ∃ st st' : St Int, st.stopAt = some 1 ∧ tick st = some st' ∧ st'.stopped = true :=
   ⟨{ stopAt := some 1 }, _, rfl, rfl, rfl⟩
+
+/-- **whole programs**: through any execution a raised stop flag stays raised, the stop request is
+untouched, yields only increase and the platform trace is only extended (nothing already done is
+undone when a program is stopped) -/
+theorem stop_is_latched_everywhere (n : Nat) (b : List (Stmt F)) (st : St F) :
+    let st' := (execStmts ops ext prog n b st).st
+    (st.stopped = true → st'.stopped = true) ∧ st'.stopAt = st.stopAt ∧ st.yields ≤ st'.yields ∧
+    ∃ suf, st'.trace = suf ++ st.trace := stop_latched_effects_kept ops ext prog n b st
 
 end EvyV.C14
